@@ -23,14 +23,23 @@ Header == [ev |-> "reset", R |-> conf.R, D |-> 1, up |-> Up, hosts |-> HostSeq,
 
 \* one logical request: reads may use mirrors or not, may opt out of back-off (IgnoreErr), may
 \* announce the expected length; writes always carry NoMirrors (as every scheme/reg literal should)
-ReqOpts == {[meth |-> me, nomir |-> nm, ie |-> ie, expect |-> ex] :
-              me \in Meths, nm \in BOOLEAN, ie \in BOOLEAN, ex \in BOOLEAN}
+\* oneshot: the body function fails with ErrNotRetryable on its second call (a source that is no io.Seeker)
+ReqOpts == {[meth |-> me, nomir |-> nm, ie |-> ie, expect |-> ex, oneshot |-> os] :
+              me \in Meths, nm \in BOOLEAN, ie \in BOOLEAN, ex \in BOOLEAN, os \in BOOLEAN}
 ReqOK(q) == /\ q.meth \in {"PUT", "DELETE"} => q.nomir /\ ~q.expect
             /\ q.meth = "HEAD" => ~q.expect
+            /\ q.oneshot => q.meth = "PUT"
 AllConfs == {[R |-> r, dmax |-> 4, prio |-> p, req |-> q] :
                r \in Rs, p \in [Hosts -> Prios], q \in [Ids -> {o \in ReqOpts : ReqOK(o)}]}
 \* equal priorities: the part of the space where the code's host order is the documented one
 EqConfs == {c \in AllConfs : \A g, h \in Hosts : c.prio[g] = c.prio[h]}
+\* uploads whose body can be sent only once, followed by other traffic (throttle slots after a not-retryable abort)
+OneShotConfs == {c \in EqConfs : \E i \in Ids : c.req[i].oneshot}
+\* generator: at least two such uploads and one plain read, nothing opted out of back-off
+NRConfs == {c \in EqConfs : /\ Cardinality({i \in Ids : c.req[i].oneshot}) >= 2
+                            /\ \E i \in Ids : c.req[i].meth = "GET" /\ ~c.req[i].expect
+                            /\ \A i \in Ids : ~c.req[i].ie /\ (c.req[i].meth = "PUT" => c.req[i].oneshot)
+                                                /\ (c.req[i].meth = "GET" => ~c.req[i].nomir /\ ~c.req[i].expect)}
 
 WaiveNone == <<>>
 WaivePrio == <<"prio-asc">>
@@ -39,7 +48,7 @@ MCInit == Init /\ m = P!PHeader(Header) /\ bad = ""
 Mon == m' = P!PFold(m, obs') /\ bad' = m'.bad
 MCNext == Next /\ Mon
 \* the client keeps running while a call is in progress (the caller and time need not move)
-MCSpec == MCInit /\ [][MCNext]_mvars /\ WF_mvars((LoopExit \/ Attempt \/ Consume) /\ Mon)
+MCSpec == MCInit /\ [][MCNext]_mvars /\ WF_mvars((LoopExit \/ Attempt \/ BodyFail \/ CtxExit \/ Consume) /\ Mon)
 
 Ok == bad = ""
 =============================================================================
